@@ -418,8 +418,28 @@ def coerce_hint_any(hint: Hint) -> Hint:
         #FIXME: [SPEED] Globalize the
         #_hint_repr_to_hint.cache_or_get_cached_value() bound method and call
         #that globalized bound method here instead as a negligible speedup.
-        hint = _hint_repr_to_hint.cache_or_get_cached_value(  # type: ignore[return-value]
+        hint_cached = _hint_repr_to_hint.cache_or_get_cached_value(
             key=get_hint_repr(hint), value=hint)
+
+        # If a *DIFFERENT* hint was previously cached under this representation,
+        # only replace this hint by that hint if the two actually compare
+        # equal. Representations are *NOT* injective: two unequal hints share
+        # the same representation whenever they are subscripted by distinct
+        # objects sharing the same name (e.g., a class and a subsequent
+        # redefinition of that class, two "typing.NewType" objects of the same
+        # name, two enumerations of the same name, two beartype validators
+        # created from the same lambda function closing over different
+        # values). Substituting one for the other silently type-checks against
+        # the wrong object.
+        if hint_cached is not hint:
+            try:
+                if hint_cached == hint:
+                    hint = hint_cached  # type: ignore[assignment]
+            # If comparing these hints raises an exception (e.g., due to a
+            # child object overriding the "==" operator to return a non-boolean
+            # object), preserve this hint as is.
+            except Exception:
+                pass
     # Else, this hint is (hopefully) self-caching.
 
     # ..................{ RETURN                             }..................
